@@ -122,7 +122,9 @@ def run_case(sh, s, d, case):
     xdb = rnd.random() < 0.3
     if xdb:
         st2 = mkst('two')
-        db2 = ZODB.DB(st2, databases=dbs, database_name='two')
+        name2 = rnd.choice(['two', 'two', ''])          # (an unnamed <zodb> section of a configuration gives the empty name)
+        db2 = ZODB.DB(st2, databases=dbs, database_name=name2)
+        sh.note('second_database_names', repr(name2))
     dynname = 'zv_dyn_%d' % s
     Dyn = make_dyn_class(dynname)
 
@@ -248,7 +250,7 @@ def run_case(sh, s, d, case):
     xobjs = []
     xmarkers = []
     if xdb:
-        c2 = c.get_connection('two')
+        c2 = c.get_connection(name2)
         for k in sorted(stored_k):
             if rnd.random() < 0.2 and nodes[k]['kind'] in ('cell', 'args', 'dyn'):
                 # the target's class has / has not constructor arguments, or goes missing before the load
@@ -359,7 +361,7 @@ def run_case(sh, s, d, case):
         st = FSM.FileStorage(os.path.join(d, 'one.fs'))
         db = ZODB.DB(st, databases=dbs, database_name='one')
         if xdb:
-            db2 = ZODB.DB(FSM.FileStorage(os.path.join(d, 'two.fs')), databases=dbs, database_name='two')
+            db2 = ZODB.DB(FSM.FileStorage(os.path.join(d, 'two.fs')), databases=dbs, database_name=name2)
     cb = db.open(tmb)
     tmb.begin()
     sh.count('isomorphism_checks')
@@ -387,7 +389,15 @@ def run_case(sh, s, d, case):
 
         def walk(v):
             if isinstance(v, persistent.wref.WeakRef):
-                out.append(('weak', v.oid))
+                # followed as well: it must lead to the object it was made for, in the database that object lives in
+                tgt = v()
+                if tgt is None:
+                    out.append(('weak', v.oid, None, None))
+                else:
+                    tgt._p_activate()
+                    pl = (tgt.__Broken_state__['payload'] if isinstance(tgt, Broken) else tgt[0] if isinstance(tgt, PersistentList)
+                          else tgt['payload'] if isinstance(tgt, PersistentMapping) else tgt.payload)
+                    out.append(('weak', v.oid, tgt._p_jar.db().database_name, pl))
             elif isinstance(v, persistent.Persistent):
                 if v._p_jar is not cb:
                     # the foreign object itself: right database, right state
@@ -422,8 +432,9 @@ def run_case(sh, s, d, case):
                 sh.violation('c14:loaded-payload-differs' + sfx, dict(wit, node=k), case)
                 return False
             got = sorted(edges_of(o, nd['kind']))
-            exp = sorted((ek, oid_of[t]) if ek not in ('xdb', 'xweak') else ('weak', xobjs[t]._p_oid) if ek == 'xweak'
-                         else ('xdb', xobjs[t]._p_oid, 'two', xmarkers[t]) for (ek, f, t) in nd['edges'])
+            exp = sorted(('strong', oid_of[t]) if ek == 'strong' else ('weak', oid_of[t], 'one', nodes[t]['marker']) if ek == 'weak'
+                         else ('weak', xobjs[t]._p_oid, name2, xmarkers[t]) if ek == 'xweak'
+                         else ('xdb', xobjs[t]._p_oid, name2, xmarkers[t]) for (ek, f, t) in nd['edges'])
             if got != exp:
                 sh.violation('c14:loaded-edges-differ-from-stored-graph' + sfx, dict(wit, node=k, got=got, model=exp), case)
                 return False
@@ -508,7 +519,7 @@ def run_case(sh, s, d, case):
             lst.tpc_finish(t)
         if hasattr(it, 'close'):
             it.close()
-        ldb = ZODB.DB(lst)
+        ldb = ZODB.DB(lst, database_name='one')
         cb_main = cb
         cb = ldb.open(transaction.TransactionManager())
         sh.count('legacy_text_oid_graphs_loaded')
